@@ -16,31 +16,43 @@ theorem cert_closed : closed prog cert types alarmIds = true := by decide +kerne
 /-- no exception type can propagate out of an entry point (`main`, static initialisation, the analysis API) under the certificate -/
 theorem cert_entries_clear : entriesClear prog cert types = true := by decide +kernel
 
-/-- Every throw site and every call of a throwing std function in the working tree either is one of the
-listed alarms or is contained: along no call chain (of any length, through virtual calls, lambdas and
-function references) does its exception leave an entry point uncaught — neither `main` (abnormal
-termination) nor the analysis API (problem not reported as a finding). -/
-theorem funnel_complete : ∀ s ∈ prog.sites, s.id ∈ alarmIds ∨ ¬ Aborts prog s := by
+/-- Every throw site and every call of a throwing std function in the working tree is one of the listed alarms,
+or carries a guard recognised by the translator (an AST heuristic that the semantics does not trust: such sites are
+listed in the evidence as assumptions), or is contained: along no call chain (of any length, through virtual calls,
+lambdas and function references) does its exception leave an entry point uncaught — neither `main` (abnormal
+termination), nor the analysis API (problem not reported as a finding), nor any `noexcept` function / destructor
+(`std::terminate`). -/
+theorem funnel_complete : ∀ s ∈ prog.sites, s.id ∈ alarmIds ∨ s.guard ≠ 0 ∨ ¬ Aborts prog s := by
   intro s hs
   by_cases h : s.id ∈ alarmIds
   · exact Or.inl h
-  · exact Or.inr (no_abort cert_closed cert_entries_clear hs h)
+  · by_cases hg : s.guard = 0
+    · exact Or.inr (Or.inr (no_abort cert_closed cert_entries_clear hs h hg))
+    · exact Or.inr (Or.inl hg)
 
-/-- the same with the exclusion as an explicit hypothesis -/
-theorem funnel_complete_partial : ∀ s ∈ prog.sites, s.id ∉ alarmIds → ¬ Aborts prog s :=
-  fun s hs h => no_abort cert_closed cert_entries_clear hs h
+/-- the same with the exclusions as explicit hypotheses -/
+theorem funnel_complete_partial : ∀ s ∈ prog.sites, s.id ∉ alarmIds → s.guard = 0 → ¬ Aborts prog s :=
+  fun _ hs h hg => no_abort cert_closed cert_entries_clear hs h hg
 
-/-- the hypothesis is satisfiable: there are sites outside the alarm list (in fact most of them) -/
-example : ∃ s ∈ prog.sites, s.id ∉ alarmIds := by decide +kernel
+/-- the hypotheses are met by sites whose containment really needs the interprocedural argument: unguarded, not an alarm,
+not caught inside their own function, and the certificate says the type does propagate out of the function -/
+example : ∃ s ∈ prog.sites, s.id ∉ alarmIds ∧ s.guard = 0 ∧ caughtIn prog.hier s.ctx s.ty = false ∧
+    cert.mem s.ty s.fn = true := by decide +kernel
 
-/-- full-strength statement, available exactly when the translator finds no alarm -/
-theorem funnel_full_iff_no_alarm : alarmIds = [] → ∀ s ∈ prog.sites, ¬ Aborts prog s := by
-  intro h s hs
-  exact funnel_complete_partial s hs (by rw [h]; simp)
+/-- full-strength statement for the unguarded sites, available exactly when the translator finds no alarm
+(vacuous while `alarmIds ≠ []`) -/
+theorem funnel_full_of_no_alarm : alarmIds = [] → ∀ s ∈ prog.sites, s.guard = 0 → ¬ Aborts prog s := by
+  intro h s hs hg
+  exact funnel_complete_partial s hs (by rw [h]; simp) hg
+
+/-- every row code of the generated table is well formed (callee digit present, no zero digit, nothing cut off by the
+decoder's fuel): `decodeRow` reads exactly what the translator wrote -/
+theorem rowCodes_wf : rowCodes.all codeWf = true := by decide +kernel
 
 /-- Every alarm that is recorded as a *finding* is a real propagation chain of the model: the listed
 chain of functions leads from the site to an entry point through calls whose try blocks do not take the
-type.  (The corresponding inputs in corpus/C13 make the real binary terminate abnormally.) -/
+type.  (The corresponding inputs in corpus/C13 make the real binary terminate abnormally.)  Vacuous while
+`findingPaths = []`. -/
 theorem finding_paths_real : ∀ p ∈ findingPaths, ∃ s ∈ prog.sites, s.id = p.site ∧ Aborts prog s := by
   have h : findingPaths.all (pathOk prog) = true := by decide +kernel
   intro p hp
